@@ -270,9 +270,11 @@ class ExprMixin(CallMixin):
                 return acc
             l = PyList(run)
             l.created_in = self._frame_id()
+            l._loop_depth = len(self.loop_ctx)  # type: ignore[attr-defined]  # made inside the loops running now: appends there are items
             return l
         l = PyList(self.eval_seq(e.elts, env, module))
         l.created_in = self._frame_id()
+        l._loop_depth = len(self.loop_ctx)  # type: ignore[attr-defined]
         return l
 
     def ev_Set(self, e, env, module):
